@@ -364,6 +364,11 @@ impl Args {
     pub fn thorough(&self) -> bool {
         self.get("tier") == Some("thorough")
     }
+    /// `--tier miri`: the monitor runs under the Miri interpreter (about 10^4 times slower): same
+    /// oracles, budgets of a few hundred operations.
+    pub fn miri(&self) -> bool {
+        self.get("tier") == Some("miri")
+    }
 }
 
 pub fn parse_u64(s: &str) -> Option<u64> {
